@@ -837,6 +837,63 @@ Section Combined.
 End Combined.
 
 (* ------------------------------------------------------------------ *)
+(* every entry of the extended-provider list is checked, whatever the other fields are *)
+
+Section EntriesAlwaysChecked.
+  Variables pubkey sigt peerid : Type.
+  Variable verify : pubkey -> bytes -> sigt -> bool.
+  Variable peer_id : pubkey -> peerid.
+  Variable peerid_eqb : peerid -> peerid -> bool.
+  Variable Hf : bytes -> bytes.
+  Variable decode_pid : bytes -> option peerid.
+  Hypothesis eqb_spec : forall a b, peerid_eqb a b = true <-> a = b.
+
+  Local Notation V strict := (verify_gen verify peer_id peerid_eqb (ideal_H Hf) decode_pid strict).
+
+  (* For EVERY advertisement -- every previous / entries link, provider, addresses, context
+     ID, metadata, removal flag, signature -- and every list x: if the advertisement carrying
+     x verifies then every entry of x passed its own check, the main provider is listed when
+     x is not empty, and the advertisement is not a removal when x is not empty. *)
+  Lemma entries_always_checked strict (a : ad pubkey sigt) x s :
+    V strict a = Ok s -> a_ext a = Some x ->
+    Forall (ep_accepts pubkey sigt peerid verify peer_id Hf decode_pid strict a x s) (x_providers x) /\
+    (x_providers x <> [] -> a_rm a = false /\ existsb (is_main a) (x_providers x) = true).
+  Proof.
+    intros Va X. apply verify_ok_iff in Va as (e & ent & _ & _ & _ & _ & _ & EA); [|exact eqb_spec].
+    unfold ext_accepts in EA. rewrite X in EA. destruct EA as [F M]. split; [exact F|].
+    intro Ne. split.
+    - destruct (x_providers x) as [|p r]; [contradiction|].
+      inversion F as [|? ? (e' & ent' & _ & _ & Rm & _) _]. exact Rm.
+    - destruct M as [E|E]; [contradiction|exact E].
+  Qed.
+
+  (* in particular: whatever is attached to a removal advertisement, it is rejected; and so
+     is any list with an entry whose signature field is absent or does not validate *)
+  Lemma removal_with_entries_rejected strict (a : ad pubkey sigt) x :
+    a_ext a = Some x -> x_providers x <> [] -> a_rm a = true -> is_ok (V strict a) = false.
+  Proof.
+    intros X Ne Rm. destruct (V strict a) as [s| |] eqn:Va; [exfalso|reflexivity|reflexivity].
+    destruct (entries_always_checked _ _ _ _ Va X) as [_ M]. destruct (M Ne) as [R _]. congruence.
+  Qed.
+
+  (* replacing the list of an accepted advertisement: the new list is checked entry by
+     entry, for every value of every other field (they are those of [a], arbitrary) *)
+  Lemma replaced_list_checked strict strict' (a : ad pubkey sigt) s x' s' :
+    V strict a = Ok s -> V strict' (set_ext a (Some x')) = Ok s' ->
+    s' = s /\
+    Forall (ep_accepts pubkey sigt peerid verify peer_id Hf decode_pid strict' (set_ext a (Some x')) x' s) (x_providers x') /\
+    (x_providers x' <> [] -> a_rm a = false /\ existsb (is_main a) (x_providers x') = true).
+  Proof.
+    intros Va Vb.
+    assert (S : s' = s).
+    { apply verify_ok_iff in Va as (e & ent & Hs & _ & _ & _ & -> & _); [|exact eqb_spec].
+      apply verify_ok_iff in Vb as (e' & ent' & Hs' & _ & _ & _ & -> & _); [|exact eqb_spec].
+      cbn in Hs'. rewrite Hs in Hs'. apply Some_inj in Hs'. subst. reflexivity. }
+    subst s'. destruct (entries_always_checked _ _ _ _ Vb eq_refl) as [F M]. auto.
+  Qed.
+End EntriesAlwaysChecked.
+
+(* ------------------------------------------------------------------ *)
 (* the signature covers the identity STRINGS: another spelling of the same peer ID
    (peer.Decode gives the same peer) is a changed signed value like any other *)
 
